@@ -10,7 +10,7 @@
 From CB Require Import Spec Unstable.
 From Coq Require Import Permutation.
 From CBP Require Import Step RefDefs C02Lemmas Arith AbsLemmas AllOps FaultDefs FaultPrims FaultDropA FaultDropB FaultUser
-     Iters DrainP ExtendIo CmpHash Ctors PhysMoves MoreOps UnstableEq Access Views RefTruncate FillExtend FaultFrame SpecCorollaries ValueCorollaries FaultGeneric FaultHistory FaultConserve FaultDebugOps.
+     Iters DrainP ExtendIo CmpHash Ctors PhysMoves MoreOps UnstableEq Access Views RefTruncate FillExtend FaultFrame SpecCorollaries ValueCorollaries FaultGeneric FaultHistory FaultConserve FaultDebugOps ContigAfter.
 
 
 Theorem C07_get :
@@ -147,6 +147,16 @@ Theorem C07_distinct_slots :
   phys s i = phys s j -> i = j.
 Proof. exact (phys_inj). Qed.
 Print Assumptions C07_distinct_slots.
+
+Theorem C07_single_slice_after_make_contiguous :
+  forall s w,
+  WF s ->
+  exists sl s1,
+    make_contiguous s w = (Ok sl, s1, w) /\ WF s1 /\ abs s1 = abs s /\
+    exists a b, as_slices s1 w = (Ok (a, b), s1, w) /\ slen b = 0 /\
+                sl_elems (items s1) a = abs s.
+Proof. exact (make_contiguous_then_single_slice). Qed.
+Print Assumptions C07_single_slice_after_make_contiguous.
 
 Theorem C07_as_mut_slices_distinct :
   forall ws s w a b s' w',
